@@ -159,35 +159,56 @@ func (h *Transport) Unmarshal(v base.HeaderValue) error {
 	}
 
 	profileFound := false
+	deliveryFound := false
 
 	for k, rv := range kvs {
 		v := rv
 
 		switch k {
 		case "RTP/AVP", "RTP/AVP/UDP":
+			if profileFound {
+				return fmt.Errorf("profile provided multiple times (%v)", v)
+			}
 			h.Profile = TransportProfileAVP
 			h.Protocol = TransportProtocolUDP
 			profileFound = true
 
 		case "RTP/AVP/TCP":
+			if profileFound {
+				return fmt.Errorf("profile provided multiple times (%v)", v)
+			}
 			h.Profile = TransportProfileAVP
 			h.Protocol = TransportProtocolTCP
 			profileFound = true
 
 		case "RTP/SAVP", "RTP/SAVP/UDP":
+			if profileFound {
+				return fmt.Errorf("profile provided multiple times (%v)", v)
+			}
 			h.Protocol = TransportProtocolUDP
 			h.Profile = TransportProfileSAVP
 			profileFound = true
 
 		case "RTP/SAVP/TCP":
+			if profileFound {
+				return fmt.Errorf("profile provided multiple times (%v)", v)
+			}
 			h.Profile = TransportProfileSAVP
 			h.Protocol = TransportProtocolTCP
 			profileFound = true
 
 		case "unicast":
+			if deliveryFound {
+				return fmt.Errorf("delivery provided multiple times (%v)", v)
+			}
+			deliveryFound = true
 			h.Delivery = new(TransportDeliveryUnicast)
 
 		case "multicast":
+			if deliveryFound {
+				return fmt.Errorf("delivery provided multiple times (%v)", v)
+			}
+			deliveryFound = true
 			h.Delivery = new(TransportDeliveryMulticast)
 
 		case "source":
